@@ -85,13 +85,24 @@ func judgeReply(entry string, sp *sysPipe, r qres, edns bool) string {
 	case r.Msg == nil:
 		return fmt.Sprintf("FAIL sig=%s/no-reply", entry)
 	case r.Elapsed > sp.P.Cfg.QueryTimeout.Duration+1500*time.Millisecond:
-		return fmt.Sprintf("FAIL sig=%s/not-within-query-timeout elapsed=%s", entry, r.Elapsed.Round(time.Millisecond))
+		return fmt.Sprintf("FAIL sig=%s/not-within-query-timeout/%s elapsed=%s", strings.TrimSuffix(entry, "/off-twin"), lateReason(curL3), r.Elapsed.Round(time.Millisecond))
 	case r.Msg.Rcode != dns.RcodeSuccess && r.Msg.Rcode != dns.RcodeServerFailure && r.Msg.Rcode != dns.RcodeNameError:
 		return fmt.Sprintf("FAIL sig=%s/neither-answer-nor-servfail rcode=%d", entry, r.Msg.Rcode)
 	case !edns && r.Msg.IsEdns0() != nil:
 		return fmt.Sprintf("FAIL sig=%s/opt-in-reply-to-non-edns-client", entry)
 	}
 	return ""
+}
+
+// lateReason is the structural part of the "did not come back in time" signature.
+func lateReason(c *l3Case) string {
+	if c == nil {
+		return "unknown"
+	}
+	if c.fam == "cname" && c.mode != "enforce" {
+		return "cname-loop-unmetered"
+	}
+	return c.fam + "-" + c.mode
 }
 
 func judgeBudget(entry string, sp *sysPipe, r qres, edns bool) (verdict string, over bool) {
